@@ -1236,6 +1236,25 @@ class ConcatScenario(BaseScenario):
     def do_reopen_same(self, w, op):
         return self.do_close_reopen(w, op, same=True)
 
+    @staticmethod
+    def _stale_removed(w, raw, h):
+        """Removed identifiers are absent from the file: no attribute record, no index row."""
+        recs_ids = set()
+        for name, node in raw["flat"]["Groups"].items():
+            if node.get("concat") and isinstance(node["concat"]["attributes"], list):
+                recs_ids |= {r.get("ID") for r in node["concat"]["attributes"] if isinstance(r, dict)}
+                try:
+                    rows_by_label = rawgeoh5.concat_rows(node)
+                except Exception:  # pylint: disable=broad-except   (malformed tables are the structural rules' business)
+                    rows_by_label = {}
+                for label, rows in rows_by_label.items():
+                    for start, size, obj, dat in rows:
+                        recs_ids.add(obj)
+                        recs_ids.add(dat)
+        stale = ({u for (hh, u) in w.removed if hh == h} - w.all_ids(h)) & recs_ids
+        if stale:
+            raise Violation(w.v("C05"), "file_keeps_removed", f"the closed file still holds records or rows of removed {sorted(stale)[:3]}", {"where": "concat"})
+
     def boundary(self, w, h, same, final=False):
         from geoh5py import Workspace
 
@@ -1246,23 +1265,14 @@ class ConcatScenario(BaseScenario):
         ws.close()
         w.sim.fault("ev:close")
         raw = rawgeoh5.read(w.paths[h])
+        if self.prop == "C05":
+            self._stale_removed(w, raw, h)      # (a removal check asks this first: rows of a removed hole are its finding, not the store's)
         w.raw_rules(raw, h, "close:closed file", closed=True)
         errs = rawgeoh5.validate(raw, concat=False)
         errs = [e for e in errs if e[0] != "R8"] if self.prop != "C02" else errs
         if errs:
             raise Violation("C02", "struct_" + errs[0][0], errs[0][1], {"rule": errs[0][0], "concat": True})
-        # removed identifiers are absent from the file
-        recs_ids = set()
-        for name, node in raw["flat"]["Groups"].items():
-            if node.get("concat") and isinstance(node["concat"]["attributes"], list):
-                recs_ids |= {r.get("ID") for r in node["concat"]["attributes"] if isinstance(r, dict)}
-                for label, rows in rawgeoh5.concat_rows(node).items():
-                    for start, size, obj, dat in rows:
-                        recs_ids.add(obj)
-                        recs_ids.add(dat)
-        stale = ({u for (hh, u) in w.removed if hh == h} - w.all_ids(h)) & recs_ids
-        if stale:
-            raise Violation(w.v("C05"), "file_keeps_removed", f"the closed file still holds records or rows of removed {sorted(stale)[:3]}", {"where": "concat"})
+        self._stale_removed(w, raw, h)
         if before is not None:
             changed = rawgeoh5.diff_digests(before[1], rawgeoh5.digests(raw))
             for key, subs in sorted(changed.items()):
